@@ -832,6 +832,14 @@ def check(program, rep):
         C06.r3_once(program, rep, B)
     rep.guard("C06-R3", once_rule, program, rep)
     rep.guard("C06-R3", C06.r3_closures, program, rep)
+    # ... and every command names the chip and core it is meant for in the
+    # documented header bytes, at their full width (C15-R1: the core number
+    # of a read or write needs all five bits of its field)
+
+    def wire_rule(program, rep):
+        from . import C15
+        C15.r1_encoder(program, folder, rep)
+    rep.guard("C15-R1", wire_rule, program, rep)
     rep.floor("C07-R1", 25)
     return finish(rep, program, EXPLANATION, NOT_DECIDED,
                   trusted=["slice-length and floor-division axioms of the "
